@@ -192,6 +192,88 @@ class Monitor:
             ctx.oracle_error('C06 monitor')
 
 
+class GravityMonitor:
+    """Event-mode use of the gravity kernels: binned wavelength, per-pixel scattered beam."""
+
+    def __init__(self, ctx, KB):
+        self.ctx, self.KB = ctx, KB
+        self.meta = {}
+
+    def on_start(self, ev):
+        w = ev.args.get('wavelength')
+        if not isinstance(w, sc.Variable) or w.bins is None:
+            return None
+        return {k: fp(v) for k, v in ev.args.items()}
+
+    def make(self, name):
+        def on_return(ev):
+            ctx = self.ctx
+            pre = ev.pre
+            if pre is None or ev.depth != 0:
+                return
+            case = {**self.meta, 'function': name, 'args': {k: describe(v) for k, v in ev.args.items()}}
+            for k, h in pre.items():
+                if fp(ev.args[k]) != h:
+                    ctx.violation('input_modified', f'{name} modified its binned input ({k})', case, part=k)
+            if ev.exc is not None:
+                ctx.violation('raised', f'{name} raised {type(ev.exc).__name__}: {ev.exc}', case)
+                return
+            try:
+                a = ev.args
+                w = a['wavelength']
+                idx = event_index(w)
+                buf = w.bins.constituents['data']
+                flat = sc.array(dims=['event'], values=np.asarray(buf.values)[idx], unit=buf.unit, dtype=buf.dtype)
+                kw = dict(a)
+                kw['wavelength'] = flat
+                for k in ('incident_beam', 'scattered_beam'):
+                    if a[k].ndim:
+                        kw[k] = gather(a[k], w)
+                dense = getattr(self.KB, name)(**kw)
+                outs = ev.result if isinstance(ev.result, dict) else {'gamma': ev.result}
+                douts = dense if isinstance(dense, dict) else {'gamma': dense}
+                ctx.event('gravity_twin')
+                ctx.count('events_compared', len(idx))
+                for key, res in outs.items():
+                    got = np.asarray(res.bins.constituents['data'].values)[event_index(res)]
+                    want = np.asarray(douts[key].values)
+                    if fp(tuple(np.asarray(res.bins.constituents[c].values).ravel() - np.asarray(res.bins.constituents['begin'].values).ravel()
+                                for c in ('end',))) != fp(tuple(np.asarray(w.bins.constituents[c].values).ravel() - np.asarray(w.bins.constituents['begin'].values).ravel()
+                                                                for c in ('end',))):
+                        ctx.violation('membership_changed', f'{name}[{key}]: number of events per bin changed', case)
+                    if not same_bits(got, want):
+                        ctx.violation('event_value', f'{name}[{key}]: event values differ from the dense formula for '
+                                      'the same event and pixel', case, part='gravity')
+            except Exception:  # noqa: BLE001
+                ctx.oracle_error('C06 gravity monitor')
+        return on_return
+
+
+def gen_gravity(rng, ctx):
+    npix = int(rng.integers(1, 8))
+    sizes = rng.integers(0, 30, size=npix)
+    if rng.random() < 0.3:
+        sizes[rng.random(npix) < 0.5] = 0
+    dt = ['float64', 'float32'][rng.integers(0, 2)]
+    wunit = ['angstrom', 'nm', 'm'][rng.integers(0, 3)]
+    bunit = ['m', 'mm'][rng.integers(0, 2)]
+    bf = 1.0 if bunit == 'm' else 1000.0
+    wf = {'angstrom': 1.0, 'nm': 0.1, 'm': 1e-10}[wunit]
+    end = np.cumsum(sizes)
+    w = sc.bins(begin=sc.array(dims=['pixel'], values=end - sizes, unit=None, dtype='int64'),
+                end=sc.array(dims=['pixel'], values=end, unit=None, dtype='int64'), dim='event',
+                data=sc.array(dims=['event'], values=rng.uniform(0.5, 20.0, size=int(end[-1]) if npix else 0) * wf,
+                              unit=wunit, dtype=dt))
+    tilt = [0.0, 0.0, 0.2][rng.integers(0, 3)]
+    kw = {
+        'incident_beam': sc.vector(np.array([0.0, 10 * np.sin(tilt), 10 * np.cos(tilt)]) * bf, unit=bunit),
+        'scattered_beam': sc.vectors(dims=['pixel'], values=(rng.normal(size=(npix, 3)) + [0.3, 0.2, 3]) * bf, unit=bunit),
+        'wavelength': w,
+        'gravity': sc.vector([0.0, -9.80665, 0.0], unit='m/s^2'),
+    }
+    return kw, tilt, ('gravity', dt, wunit, bunit, 'tilted' if tilt else 'perpendicular')
+
+
 # ------------------------------------------------------------ generator ---
 def gen(rng, ctx):
     origin, tgt = TARGETS[rng.integers(0, len(TARGETS))]
@@ -274,8 +356,9 @@ def plan(tier, seed):
 
 
 def requirements(tier):
-    return {'events': {'convert(binned)': 200, 'twin': 200, 'edges': 10},
-            'forced': ['layout:' + x for x in LAYOUTS] + ['evdtype:float32', 'evdtype:int64', 'mode:direct', 'mode:indirect'],
+    return {'events': {'convert(binned)': 200, 'twin': 200, 'edges': 10, 'gravity_twin': 50},
+            'forced': ['layout:' + x for x in LAYOUTS] + ['evdtype:float32', 'evdtype:int64', 'mode:direct', 'mode:indirect']
+            + ['gravity wavelength unit:' + u for u in ('angstrom', 'nm', 'm')],
             'counters': {'events_compared': 10000}}
 
 
@@ -287,7 +370,22 @@ def run(shard, ctx):
     mon = Monitor(ctx, scn)
     tr = Tracer()
     tr.watch(CV.convert, 'convert', on_start=mon.on_start, on_return=mon.on_return)
+    from scippneutron.conversion import beamline as KB
+    gmon = GravityMonitor(ctx, KB)
+    for nm in ('scattering_angles_with_gravity', 'scattering_angle_in_yz_plane'):
+        tr.watch(getattr(KB, nm), nm, on_start=gmon.on_start, on_return=gmon.make(nm))
     with tr:
+        for i in range(max(4, shard['cases'] // 4)):
+            kw, tilt, sig = gen_gravity(rng, ctx)
+            gmon.meta = {'family': 'gravity', 'tilt': tilt}
+            ctx.hit('gravity wavelength unit:' + sig[2])
+            for nm in (('scattering_angles_with_gravity',) if tilt else
+                       ('scattering_angles_with_gravity', 'scattering_angle_in_yz_plane')):
+                try:
+                    getattr(KB, nm)(**kw)
+                except Exception:  # noqa: BLE001  judged by the monitor
+                    pass
+                ctx.case((nm, *sig))
         for i in range(shard['cases']):
             da, origin, tgt, sig, meta = gen(rng, ctx)
             mon.meta = meta
